@@ -74,3 +74,28 @@ package log
 //@ func (*UniqueLogger).uniqResults
 //@   props C14 C12 C08 C16
 //@   entry row start: [go (*UniqueLogger).uniqResults$1{results: bind_u, in: bind_i, ctx: bind_c}] when ret == u && i == in && c == ctx -> exit
+
+// option constructors: each returns its own option closure over exactly its argument (verified here, inlined at call sites)
+//@ func FlushInterval
+//@   inline
+//@   props C14 C08 C16
+//@   ensures closureof(ret, "FlushInterval$1") && capt(ret, "interval") == interval
+//@ func JSON
+//@   inline
+//@   props C14 C08 C16
+//@   ensures closureof(ret, "JSON$1")
+//@ func Plain
+//@   inline
+//@   props C14 C08 C16
+//@   ensures closureof(ret, "Plain$1")
+
+// error records: one structured log entry per error, under the scan's label, carrying exactly that error; the
+// de-duplicating logger forwards errors unchanged
+//@ func (*logger).Error
+//@   props C13 C08 C14
+//@   observe zap.Error, Error
+//@   entry row entry: [call zap.Error(err) as (f) ; call Error(l.zapl, l.label, bind_fs)] when len(fs) == 1 && fs[0] == f -> exit
+//@ func (*UniqueLogger).Error
+//@   props C13 C14
+//@   observe Error
+//@   entry row forward: [call Error(l.logger, err)] -> exit
